@@ -1,12 +1,14 @@
 import Oracle.Proto
 import Oracle.Persistence
+import Oracle.PersistFacts
 /-! Oracle suites of property C09 (registered in Oracle/MainC09.lean through `suites`). -/
 namespace Oracle.C09
 
 def suites : List (String × Suite) := [
   ("persist", Oracle.Persistence.model),
   ("persist-spec", Oracle.Persistence.spec),
-  ("persist-original", Oracle.Persistence.original)
+  ("persist-original", Oracle.Persistence.original),
+  ("persist-facts", Oracle.PersistFacts.suite)
 ]
 
 end Oracle.C09
